@@ -1,24 +1,29 @@
 (* C02 - Canvas composition is equivalent to operating on a plain grid of cells.
-   Only statements here; every proof is [exact <lemma>] into Proofs/Canvas*.v.
+   Only statements here; every proof is [exact <lemma>] (or a two-line instantiation) into
+   Proofs/Canvas*.v.
 
    The model (Model/Canvas.v) is a line-by-line transcription of urwid/canvas.py: shards,
    cviews, shard tails with (cview, rows-done) cursors for the Python iterators, and every
-   composite operation.  The reference (Model/CanvasGrid.v) interprets the same operation
-   language over a plain list of rows of cells.  [gstep] is defined exactly where the
-   property defines the operation.  The theorems say: wherever the grid semantics is defined,
-   the shard machinery raises nothing and its content(), cols(), rows() and coords are
-   those of the grid. *)
+   composite operation (CanvasCombine, CanvasJoin, CanvasOverlay, CompositeCanvas(c),
+   pad_trim_left_right, pad_trim_top_bottom, trim, trim_end, fill_attr_apply, cursor /
+   pop-up / finalize).  The reference (Model/CanvasGrid.v) interprets the same operation
+   language over a plain list of rows of cells; [gstep] is defined exactly where the property
+   defines the operation.  The theorems say: wherever the grid semantics is defined, the shard
+   machinery raises nothing and its content(), cols(), rows() and coords are those of the
+   grid - for every program of operations, of any depth, with any sharing of operands. *)
 From Coq Require Import ZArith List Bool.
 Import ListNotations.
-From Urwid Require Import PyBase Canvas CanvasGrid CanvasFacts CanvasAbs CanvasVert CanvasHoriz CanvasJoin CanvasProg CanvasProgH CanvasSim.
+From Urwid Require Import PyBase Canvas CanvasGrid CanvasFacts CanvasAbs CanvasVert CanvasHoriz CanvasJoin CanvasSides
+     CanvasProg CanvasProgH CanvasSim.
 Open Scope Z_scope.
 
 (* ------------------------------------------------------------------------------------------
    The invariant.  [WF s] is [wfb s = true] for the boolean checker [wfb] of Model/Canvas.v
-   (positive sizes; every cview inside its leaf canvas; every cview present in a shard at
-   least as tall as what remains of it; in every shard the widths add up to the canvas
-   width; nothing pending at the end).  It is also evaluated by the extracted model on every
-   canvas of every correspondence case and must be true wherever the operations are defined.
+   (positive sizes; every cview inside its leaf canvas, leaf rows made of whole characters;
+   every cview present in a shard at least as tall as what remains of it; in every shard the
+   widths add up to the canvas width; nothing pending at the end).  It is also evaluated by the
+   extracted model on every canvas of every correspondence case and must be true wherever the
+   operations are defined.
    ------------------------------------------------------------------------------------------ *)
 
 (* --- content() on a well-formed canvas does not raise, has rows() rows, each cols() wide --- *)
@@ -33,15 +38,25 @@ Theorem content_defined :
 Proof. intros s H. destruct (WF_elim _ H) as (_ & _ & _ & C). eauto. Qed.
 Print Assumptions content_defined.
 
-(* --- the Python shard algorithm (shard_body / shard_body_row / shard_body_tail over
-       iterators) computes the rows of the "remaining rows" machine of Proofs/CanvasAbs.v;
-       this is the key lemma every operation theorem goes through --- *)
+(* --- key lemma: the Python shard algorithm (shard_body / shard_body_row / shard_body_tail
+       over iterators) computes the rows of the "remaining rows" machine of
+       Proofs/CanvasAbs.v; every operation theorem goes through it --- *)
 Theorem content_correct :
   forall s, WF s -> content s = Ok (acontent_from (map abs_sh s) []).
 Proof. intros s H. destruct (WF_elim _ H) as (_ & _ & _ & C). exact C. Qed.
 Print Assumptions content_correct.
 
-(* --- vertical stacking: CanvasCombine is list append on shards --- *)
+(* --- no row of a well-formed canvas starts or ends with half a character --- *)
+Theorem content_has_no_half_characters_at_the_edges :
+  forall s g, WF s -> content s = Ok g -> Forall (fun r : row => row_cleanb r = true) g.
+Proof. exact content_clean. Qed.
+Print Assumptions content_has_no_half_characters_at_the_edges.
+
+(* ------------------------------------------------------------------------------------------
+   One theorem per shard-level operation: denotation, invariant, size.
+   ------------------------------------------------------------------------------------------ *)
+
+(* vertical stacking: CanvasCombine is list append on shards *)
 Theorem stacking_is_row_append :
   forall s1 s2 r1 r2,
     WF s1 -> WF s2 -> shards_cols s1 = shards_cols s2 -> content s1 = Ok r1 -> content s2 = Ok r2 ->
@@ -50,7 +65,7 @@ Theorem stacking_is_row_append :
 Proof. exact combine_shards. Qed.
 Print Assumptions stacking_is_row_append.
 
-(* --- shards_trim_rows keeps the first k rows; shards_trim_top drops the first rows --- *)
+(* shards_trim_rows keeps the first k rows; shards_trim_top drops the first rows *)
 Theorem trim_rows_is_take :
   forall s k rows, WF s -> 0 < k -> content s = Ok rows ->
     exists s', shards_trim_rows s k = Ok s' /\ WF s' /\ content s' = Ok (takez k rows) /\ shards_cols s' = shards_cols s.
@@ -63,7 +78,24 @@ Theorem trim_top_is_drop :
 Proof. exact trim_top_shards. Qed.
 Print Assumptions trim_top_is_drop.
 
-(* --- attribute remapping: cell by cell, and remapping twice is remapping by the composed map --- *)
+(* shards_trim_sides: every row becomes its window of columns [l, l+c); a double-width
+   character cut by either edge becomes a space *)
+Theorem trim_sides_is_window :
+  forall s l c g, WF s -> content s = Ok g -> 0 <= l -> 0 < c -> l + c <= shards_cols s ->
+    exists s', shards_trim_sides s l c = Ok s' /\ WF s' /\
+               content s' = Ok (map (fun R : row => trim_cells R l (l + c)) g) /\ shards_cols s' = c.
+Proof. exact trim_sides_shards. Qed.
+Print Assumptions trim_sides_is_window.
+
+(* shards_join: row-wise concatenation of canvases of equal height *)
+Theorem join_is_rowwise_concatenation :
+  forall sls gs H,
+    sls <> [] -> Forall2 (fun s g => WF s /\ content s = Ok g) sls gs -> Forall (fun s => shards_rows s = H) sls ->
+    exists s, shards_join sls = Ok s /\ WF s /\ content s = Ok (g_hcat gs) /\ shards_cols s = sumz (map shards_cols sls).
+Proof. exact join_shards. Qed.
+Print Assumptions join_is_rowwise_concatenation.
+
+(* attribute remapping: cell by cell, and remapping twice is remapping by the composed map *)
 Theorem fill_attr_is_cell_map :
   forall m s rows, WF s -> content s = Ok rows ->
     WF (fill_shards m s) /\ content (fill_shards m s) = Ok (map (map (cell_map_attr (Some m))) rows) /\
@@ -76,8 +108,8 @@ Theorem fill_attr_composes :
 Proof. exact map_attr_combine. Qed.
 Print Assumptions fill_attr_composes.
 
-(* --- a double-width character cut by a window becomes a space, and a window of a window
-       is the window (so cutting twice never emits half a character either) --- *)
+(* a double-width character cut by a window becomes a space, and a window of a window is the
+   window (cutting twice never emits half a character either) *)
 Theorem window_never_emits_half_a_character :
   forall r s e, row_cleanb (trim_cells r s e) = true.
 Proof. exact row_clean_trim_cells. Qed.
@@ -91,9 +123,8 @@ Print Assumptions window_of_window.
 
 (* ------------------------------------------------------------------------------------------
    The composition theorem.  [vrel v gv]: the model canvas [v] and the grid value [gv] agree:
-   a leaf is its grid; a composite is well-formed, its content() is the grid, its coords and
-   finalized flag are those of the grid value.  [vrel_gives_observables] spells out what that
-   means for content(), cols(), rows() and the cursor / pop-up coordinates.
+   a leaf is its grid; a composite is well-formed, its content() is the grid, its coords
+   (cursor, pop-up) and finalized flag are those of the grid value.
    ------------------------------------------------------------------------------------------ *)
 Theorem vrel_gives_observables :
   forall v gv, vrel v gv ->
@@ -101,41 +132,40 @@ Theorem vrel_gives_observables :
 Proof. exact vrel_observables. Qed.
 Print Assumptions vrel_gives_observables.
 
-(* FULL statement: for EVERY program of canvas operations (any depth, any sharing through
-   the environment) on which the grid semantics is defined, the shard model does not raise and
-   every canvas on its stack and in its environment agrees with the grid. *)
-Definition canvas_composition_is_grid_full : Prop :=
+(* For EVERY program of canvas operations (any length, any nesting depth, any sharing of
+   operands through the environment) on which the grid semantics is defined, the shard model
+   does not raise, and every canvas on its stack and in its environment agrees with the grid:
+   same cells (text, attribute, charset), same width and height, same cursor and pop-up
+   coordinates.  Operands are left unchanged: the environment only grows, and what was bound
+   stays related to the same grid value. *)
+Theorem canvas_composition_is_grid :
   forall leaves prog gst,
-    grun leaves (GS [] []) prog = Some gst ->
-    exists st, run leaves (MS [] [] []) prog = (st, None) /\
-               Forall2 vrel (env st) (genv gst) /\ Forall2 vrel (stack st) (gstack gst).
-
-(* PROVED part: the same for every program that does not use the three instructions whose
-   simulation lemma is not proved yet ([proved_instr]: everything except IJoin, IOverlay,
-   IPadLR).  Those three are covered by the correspondence and the oracle only. *)
-Theorem canvas_composition_is_grid_partial :
-  forall leaves prog gst,
-    Forall (fun i => proved_instr i = true) prog ->
     grun leaves (GS [] []) prog = Some gst ->
     exists st, run leaves (MS [] [] []) prog = (st, None) /\
                Forall2 vrel (env st) (genv gst) /\ Forall2 vrel (stack st) (gstack gst).
 Proof.
-  intros leaves prog gst P G.
-  destruct (run_sim leaves prog (MS [] [] []) (GS [] []) gst) as (st & R & S1 & S2); [split; constructor|exact P|exact G|].
+  intros leaves prog gst G.
+  destruct (run_sim leaves prog (MS [] [] []) (GS [] []) gst) as (st & R & S1 & S2);
+    [split; constructor|apply Forall_forall; intros; reflexivity|exact G|].
   exists st. auto.
 Qed.
-Print Assumptions canvas_composition_is_grid_partial.
+Print Assumptions canvas_composition_is_grid.
 
-(* one step, for any related states (this is the induction step of the theorem above) *)
-Theorem every_proved_operation_simulates :
+(* one operation, from any related pair of states (the induction step of the theorem above):
+   CanvasCombine, CanvasJoin, CanvasOverlay, CompositeCanvas(c), pad_trim_left_right,
+   pad_trim_top_bottom, trim, trim_end, fill_attr_apply, set cursor / pop-up, finalize *)
+Theorem every_operation_simulates :
   forall leaves st gst i gst',
-    srel st gst -> proved_instr i = true -> gstep leaves gst i = Some gst' ->
+    srel st gst -> gstep leaves gst i = Some gst' ->
     exists st', step leaves st i = Ok st' /\ srel st' gst'.
-Proof. exact step_sim. Qed.
-Print Assumptions every_proved_operation_simulates.
+Proof. intros leaves st gst i gst' R G. exact (step_sim leaves st gst i gst' R eq_refl G). Qed.
+Print Assumptions every_operation_simulates.
 
 (* ------------------------------------------------------------------------------------------
-   The delta clause - stated, not proved; decided by the correspondence and the oracle.
+   The delta clause - stated at full strength, NOT proved; decided by the correspondence
+   (the model of content_delta / shards_delta / shard_cviews_delta is compared with the
+   implementation item by item) and by the oracle (the delta applied to the old rows must
+   reproduce the new rows).
    ------------------------------------------------------------------------------------------ *)
 Definition delta_apply_full : Prop :=
   forall new old rows_new rows_old d,
@@ -145,8 +175,8 @@ Definition delta_apply_full : Prop :=
     apply_delta rows_old d = rows_new.
 
 (* ------------------------------------------------------------------------------------------
-   Non-vacuity: concrete leaves with double-width characters, a program using every proved
-   operation; the grid semantics is defined on it, the invariant holds and the model agrees.
+   Non-vacuity: concrete leaves with double-width characters, a program using every
+   operation; the grid semantics is defined on it, the invariant holds, the model agrees.
    ------------------------------------------------------------------------------------------ *)
 Definition ex_wide (a : Z) (ch : Z) : list cell := [Cell KL a 0 [ch]; Cell KR a 0 []].
 Definition ex_leaf1 : canvas :=
@@ -156,13 +186,17 @@ Definition ex_leaf2 : canvas := Canvas 2 (LSolid 0 [46] 5 2).
 Definition ex_leaves : list (canvas * option (Z * Z)) := [(ex_leaf1, Some (2, 1)); (ex_leaf2, None)].
 Definition ex_prog : list instr :=
   [ ILeaf 1; ILeaf 2; ILeaf 1; ICombine 3; IFillAttr [(0, 7); (2, 5)]; ITrim 1 (Some 4); IPadTB 1 (-1);
-    ISetPopUp 9 1 1; IBind; IRef 0; IWrap; ITrimEnd 2; IFinalize; IBind ].
+    ISetPopUp 9 1 1; IBind;
+    IRef 0; IWrap; ITrimEnd 2; IFinalize; IBind;
+    IRef 0; ILeaf 1; ILeaf 2; IJoin [6; 5; 7]; IPadLR (-2) 1; IBind;
+    IRef 2; ILeaf 1; IWrap; IPadLR (-1) (-1); IOverlay 4 1; IBind ].
 
 Example ex_grid_defined :
   match grun ex_leaves (GS [] []) ex_prog with
   | Some gst => map (fun v => (gheight (gg v), gwidth (gg v), gco v)) (genv gst)
   | None => []
-  end = [ (4, 5, Coords (Some (2, 5)) (Some (1, 1, 9))); (2, 5, Coords (Some (2, 5)) (Some (1, 1, 9))) ].
+  end = [ (4, 5, Coords (Some (2, 5)) (Some (1, 1, 9))); (2, 5, Coords (Some (2, 5)) (Some (1, 1, 9)));
+          (4, 17, Coords (Some (6, 1)) (Some (-1, 1, 9))); (4, 17, Coords (Some (5, 2)) (Some (-1, 1, 9))) ].
 Proof. vm_compute. reflexivity. Qed.
 
 Example ex_model_agrees :
